@@ -57,8 +57,9 @@ class _ScheduleCreator(IRVisitor):
             return
 
         if abs(g.axis[0]) < ATOL and abs(g.axis[1]) < ATOL:
-            # Rz rotation.
-            theta = round(math.degrees(g.angle), FIXED_POINT_DEG_PRECISION)
+            # Rz rotation; a rotation about -z is a rotation about +z by the opposite angle.
+            angle = g.angle if g.axis[2] > 0 else -g.angle
+            theta = round(math.degrees(angle), FIXED_POINT_DEG_PRECISION)
             self.schedule.add(
                 quantify_scheduler_gates.Rz(
                     theta=theta, qubit=self._get_qubit_string(g.qubit)
